@@ -67,11 +67,13 @@ def strLt : Str → Str → Bool
 /-- the comparator handed to the sort, as "not greater" -/
 def strLe (a b : Str) : Bool := !strLt b a
 
-/-- decimal digits of `n`, least significant first -/
-def digitsLE (n : Nat) : List Nat :=
-  if n < 10 then [n] else (n % 10) :: digitsLE (n / 10)
-termination_by n
-decreasing_by omega
+/-- decimal digits of `n`, least significant first; structural recursion on fuel so that it reduces in the kernel -/
+def digitsFuel : Nat → Nat → List Nat
+  | 0, _ => []
+  | fuel + 1, n => if n < 10 then [n] else (n % 10) :: digitsFuel fuel (n / 10)
+
+/-- `n + 1` steps always suffice (`ofDigitsLE_digitsLE`) -/
+def digitsLE (n : Nat) : List Nat := digitsFuel (n + 1) n
 
 /-- `strconv.Itoa(n)` for `n ≥ 0` as bytes -/
 def itoa (n : Nat) : Str := ((digitsLE n).map (· + 48)).reverse
